@@ -272,13 +272,16 @@ fn concurrent(ch: &mut Chooser, ctx: &WorkerCtx, ntasks: usize, per_task: usize)
         let mut nw = match node_world(ctx, flags_default()).await { Ok(x) => x, Err(e) => { res.violations.push(("could not establish the connection under a conforming peer".into(), json!({"error": e}))); return res; } };
         let me = nw.node.spawn(crate::procs::Rec { name: "me".into(), log: Arc::new(Mutex::new(vec![])) }).await.unwrap();
         nw.w.gates.set_active(&GATES07);
+        let names: Vec<String> = (0..ntasks).map(|t| format!("sender{}", t)).collect();
+        let steps: Vec<(&str, usize)> = names.iter().map(|n| (n.as_str(), per_task)).collect();
+        crate::world::choose_budgets(ch, &steps, 8);
         let issued: Arc<Mutex<Vec<(usize, usize, DistMsg, bool)>>> = Arc::new(Mutex::new(vec![]));
         let finished = Arc::new(Mutex::new(0usize));
         for t in 0..ntasks {
             let (node, issued, fin, me) = (nw.node.clone(), issued.clone(), finished.clone(), me.clone());
             let h = tokio::spawn(async move {
                 for i in 0..per_task {
-                    edp_client::verif::point("drv.step").await;
+                    crate::world::drv_step(&format!("sender{}", t)).await;
                     let to = pid_remote(10 + t as u32);
                     let (exp, ok) = match (t + i) % 3 {
                         0 => { let msg = OwnedTerm::Tuple(vec![OwnedTerm::Integer(t as i64), OwnedTerm::Integer(i as i64), OwnedTerm::Binary(vec![t as u8; 40])]); let r = node.send(&to, msg.clone()).await; (DistMsg { control: RefVal::Tuple(vec![RefVal::int(2), RefVal::atom(""), den_pid(&to)]), payload: Some(denote(&msg)) }, r.is_ok()) }
@@ -297,11 +300,13 @@ fn concurrent(ch: &mut Chooser, ctx: &WorkerCtx, ntasks: usize, per_task: usize)
             nw.w.settle(&mut nw.peer, &probe).await;
             let parked = nw.w.gates.parked();
             if parked.is_empty() { break; }
-            let options: Vec<String> = parked.iter().map(|(_, t, l)| format!("run:{}@{}", t, l)).collect();
+            let mut options: Vec<String> = parked.iter().map(|(_, t, l)| format!("run:{}@{}", t, l)).collect();
+            let mut pairs: Vec<(usize, usize)> = vec![];
+            for i in 0..parked.len() { for j in 0..parked.len() { if i != j && parked[i].1 != parked[j].1 { pairs.push((i, j)); options.push(format!("run-together:{}@{}+{}@{}", parked[i].1, parked[i].2, parked[j].1, parked[j].2)); } } }
             let c = ch.choose(&options);
             events.push(options[c].clone());
             res.steps += 1;
-            nw.w.gates.release(parked[c].0);
+            if c < parked.len() { nw.w.gates.release(parked[c].0); } else { let (i, j) = pairs[c - parked.len()]; nw.w.gates.release(parked[i].0); nw.w.gates.release(parked[j].0); }
         }
         nw.w.gates.release_all_and_deactivate();
         nw.w.settle(&mut nw.peer, &probe).await;
@@ -364,6 +369,6 @@ pub fn run(rep: &Report) -> Value {
         "operations_per_mode": n_ops,
         "concurrent": conc.iter().map(|(n, s)| json!({"scenario": n, "executions": s.executions, "deviation_bound_completed": s.bound_completed, "distinct_outcomes": s.distinct_outcomes, "unstable_failures_not_reported": s.unstable, "max_decision_points": s.max_points})).collect::<Vec<_>>(),
         "distinct_outcomes": conc.iter().map(|c| c.1.distinct_outcomes).sum::<usize>(),
-        "rule": "(inputs) the six send-side operations x argument values (plain and node-local pids/references, names of 0/255 bytes and UTF-8, payloads from the boundary alphabet, unlink ids across 64 bits) in pass-through and distribution-header mode on a real Connection against a scripted peer: the peer's byte log is cut by an independent deframer and each frame read by an independent reader; operations on never-connected, refused and closed connections; one Connection reused for a second session that negotiates the other framing mode (both directions); (concurrency) 2-3 tasks x 1-2 Node::send/link/monitor through one node with gates before the connection lock, between the partial writes of a frame and after a frame, all schedules within the deviation bound",
+        "rule": "(inputs) the six send-side operations x argument values (plain and node-local pids/references, names of 0/255 bytes and UTF-8, payloads from the boundary alphabet, unlink ids across 64 bits) in pass-through and distribution-header mode on a real Connection against a scripted peer: the peer's byte log is cut by an independent deframer and each frame read by an independent reader; operations on never-connected, refused and closed connections; one Connection reused for a second session that negotiates the other framing mode (both directions); (concurrency) 2-3 tasks x 1-2 Node::send/link/monitor through one node with gates before the connection lock, between the partial writes of a frame and after a frame, per-operation cooperative-budget preemption (0..7 units left) and pairs of tasks made runnable in the same tick, all schedules within the deviation bound",
     })
 }
